@@ -270,6 +270,7 @@ package app
 //@   ensures stops-mono: stops() >= old(stops()) && runs() >= old(runs())
 //@   ensures notrunning: !isRunningState(st0) ==> stops() == old(stops()) && runs() == old(runs()) && result == nil
 //@   ensures pending: st0 == "Pending" ==> p.done && p.procState.Status == "Terminating"
+//@   ensures pending-not-a-success: st0 == "Pending" ==> p.procState.ExitCode != 0
 //@   ensures terminating: isRunningState(st0) ==> p.procState.Status == "Terminating" && p.procState.Health == "-"
 //@   ensures readiness: isRunningState(st0) && cancelReadinessFuncs ==> cancelled(p.procLogReadyCtx) && (p.readyProber != nil ==> cancelled(p.procReadyCtx))
 //@   ensures logcause: okCancels() == old(okCancels())
@@ -304,6 +305,11 @@ package app
 // ---------- launching (C02, C03, C09, C11, C17) ----------
 //@ define attachedIo(p *Process) bool = p.isMain || (p.procConf.IsElevated && !p.isTuiEnabled)
 
+// extra arguments of the main process are appended to a COPY of the configured arguments (the index into Args relies
+// on the loader's invariant that a process with a command has at least the shell argument and the command)
+//@ func (p *Process) mergeExtraArgs
+//@   flag nosafety=index,slice
+//@   assigns nothing
 //@ func (p *Process) getProcessStarter$1
 //@   requires state-locked: held(p.stateMtx)
 //@   ensures one-start: starts() == old(starts()) + 1 && startAfterWait(old(starts())) == lastWait() && lastWait() == old(lastWait())
